@@ -13,7 +13,9 @@ def methods(cfg):
 def build(cfg):
     from transactron.lib.allocators import PriorityEncoderAllocator
     # "dflt": use the constructor's default init (-1 = everything free); cfg["init"] is then the full mask
-    kw = {} if cfg.get("dflt") else {"init": cfg["init"]}
+    # "neg": the same mask written as a negative Python int (infinitely many leading ones, like the default -1,
+    # e.g. ~0b1 = "everything but identifier 0"); cfg["init"] stays the effective mask of the low `entries` bits
+    kw = {} if cfg.get("dflt") else {"init": cfg["init"] - (1 << cfg["entries"]) if cfg.get("neg") else cfg["init"]}
     dut = PriorityEncoderAllocator(cfg["entries"], cfg["aw"], cfg["fw"], **kw)
     ms = {}
     for i in range(cfg["aw"]):
@@ -103,6 +105,7 @@ def trace_cfgs(thorough, rng):
             for init in sorted(inits):
                 cfgs.append({"entries": n, "aw": a, "fw": f, "init": init})
             cfgs.append({"entries": n, "aw": a, "fw": f, "init": full, "dflt": 1})
+            cfgs.append({"entries": n, "aw": a, "fw": f, "init": rng.randrange(full + 1) & ~1 & full if n > 1 else 0, "neg": 1})
     if thorough:  # beyond the DESIGN bounds: wider masks, more ways
         for n, a, f in [(7, 4, 3), (8, 4, 4), (11, 3, 2), (13, 2, 3)]:
             full = (1 << n) - 1
